@@ -27,7 +27,22 @@ def main() -> int:
         payload = json.loads(Path(args.replay).read_text())
         if hasattr(mod, "replay"):
             return mod.replay(payload)
-        print(json.dumps(payload, indent=1))
+        # generic replay: show the recorded failing input / broken obligation; protocol lines are run
+        # through the model again so that model and implementation results can be compared side by side
+        print(json.dumps(payload, indent=1)[:6000])
+        lines = [payload[k] for k in ("line",) if isinstance(payload.get(k), str)]
+        fi = payload.get("failing_input")
+        if isinstance(fi, str) and fi.startswith("("):
+            lines.append(fi)
+        if lines:
+            core.build_lean(args.prop)
+            for ln, out in zip(lines, core.run_driver(lines)):
+                print(f"protocol line : {ln[:400]}")
+                print(f"model / predicate now says: {out[:400]}")
+                if "implementation" in payload:
+                    print(f"implementation said       : {str(payload['implementation'])[:400]}")
+        print("to re-run the search that found it: VERIF_SEED=%s %s harness/check.py %s --tier %s"
+              % (payload.get("seed", 0), sys.executable, args.prop, payload.get("tier", "quick")))
         return 0
     return core.run_check(args.prop, args.tier, seed, mod)
 
